@@ -21,3 +21,33 @@ func VerifEncodeNBNSName(name string) []byte { return encodeNBNSName(name) }
 func VerifDecodeNBNSName(buf []byte) (int, string, error) { return decodeNBNSName(buf) }
 
 func VerifParseNodeNameArray(b []byte) ([]string, error) { return parseNodeNameArray(b) }
+
+// VerifCacheEntry is a value copy of one mDNS response-cache entry: the map key
+// (source MAC + message id) and, per cached IPNameEntry, its name, MAC and model.
+type VerifCacheEntry struct {
+	Key    []byte
+	Names  []string
+	MACs   [][]byte
+	Models []string
+}
+
+// VerifMDNSCache returns a copy of the mDNS response cache (IPv4 entries first,
+// then IPv6) taken under the handler lock. The cache has no public reader.
+// Compiled only with -tags verif.
+func (h *DNSHandler) VerifMDNSCache() []VerifCacheEntry {
+	h.mutex.RLock()
+	defer h.mutex.RUnlock()
+	out := make([]VerifCacheEntry, 0, len(h.mdnsCache))
+	for k, c := range h.mdnsCache {
+		e := VerifCacheEntry{Key: []byte(k)}
+		for _, l := range [][]packet.IPNameEntry{c.ipv4, c.ipv6} {
+			for _, v := range l {
+				e.Names = append(e.Names, v.NameEntry.Name)
+				e.MACs = append(e.MACs, append([]byte{}, v.Addr.MAC...))
+				e.Models = append(e.Models, v.NameEntry.Model)
+			}
+		}
+		out = append(out, e)
+	}
+	return out
+}
